@@ -387,7 +387,7 @@ class Gen:
 
     def function(self, sc):
         self.fn_count += 1
-        kind = self.r.randrange(23)
+        kind = self.r.randrange(24)
         name = f"f{self.fn_count}"
         deco = ""
         if self.chance(self.o["decorators"]):
@@ -475,6 +475,14 @@ class Gen:
                 call = f"{name}({arg()}, {arg()})" if two else f"{name}({arg()})"
                 out.append(self.pick([f"println({call})", f"let {name}r = {call}\nprintln({name}r)", f"println({call} + {call})"]))
             out.append(f"println({name}c)")
+        elif kind == 23:        # a loop whose body ends in `return`, code after the loop, run with zero and with some iterations
+            self.features.add("loop-body-ends-in-return")
+            loop = self.pick(["for i in lo..hi {{ {b} }}", "while lo < hi {{ {b} }}", "for c in s {{ {b} }}"])
+            b = self.pick(["return 1", "print(\"in\"); return 2", "if lo > 100 { print(\"x\") }; return 3".replace("; return", "\n        return")])
+            out.append(f"fn {name}(lo, hi, s) {{\n    " + loop.format(b=b) + "\n    print(\"after\")\n    return 0\n}")
+            out.append(f"println({name}(0, 0, \"\"))")
+            out.append(f"println({name}(0, 2, \"ab\"))")
+            out.append(f"println({name}(5, 1, \"z\"))")
         elif kind == 22:        # two closures of one frame share a mutable local, captured high / low / high; used after the frame returned
             self.features.add("shared-upvalue-capture-order")
             decls = [("lo", self.r.randrange(1, 9)), ("v", self.r.randrange(10, 19))]
